@@ -159,7 +159,8 @@ REQUIRED_BRANCHES = sorted({combo_name(c) for c in all_combos()}) + \
     ['route_clone_%s_%s' % (cl, k) for cl in ('copy', 'deepcopy', 'pickle') for k in ('sed', 'cube', 'conv')] + \
     ['route_positional_' + k for k in ('sed', 'cube', 'conv')] + ['route_ctor_wav_cube', 'route_ctor_nu_cube', 'route_ctor_all_keywords_cube', 'route_ctor_conv'] + \
     ['route_refused_then_overwrite_' + k for k in ('sed', 'cube', 'conv')] + \
-    ['route_unit_wav', 'route_unit_freq', 'route_meta_cube', 'sed_reused_after_refusal']
+    ['route_unit_wav', 'route_unit_freq', 'route_meta_cube', 'sed_reused_after_refusal',
+     'route_wav_unit_sed', 'route_wav_unit_cube', 'route_wav_unit_conv']
 
 
 def fill(rng, combo, small=False, sizes=None):
@@ -234,6 +235,10 @@ def route_plan():
                 out.append((kind, dict(ctor=how)))
             out.append((kind, dict(ctor='all', clone='deepcopy')))
             out.append((kind, dict(ctor='nu', clone='pickle', positional=True)))
+    for kind in ('sed', 'cube', 'conv'):
+        for wu in WAV_UNITS + ['m']:
+            out.append((kind, dict(wav_unit=wu)))          # the object HOLDS its wavelength(s) in another length unit
+    out.append(('conv', dict(wav_unit='nm', ctor=True, clone='pickle')))
     for uw in WAV_UNITS:
         out.append(('sed', dict(unit_wav=uw)))
     for uf in FREQ_UNITS:
@@ -262,6 +267,8 @@ def random_route(rng, kind):
         r['unit_freq'] = rng.choice(FREQ_UNITS)
     if kind == 'cube' and rng.random() < 0.3:
         r['meta'] = True
+    if rng.random() < 0.3:
+        r['wav_unit'] = rng.choice(WAV_UNITS + ['m'])
     return r
 
 
@@ -469,6 +476,8 @@ def _route_branches(c, branches):
         branches.add('route_unit_freq')
     if r.get('meta'):
         branches.add('route_meta_cube')
+    if r.get('wav_unit'):
+        branches.add('route_wav_unit_' + k)
     for arr, pat in (c.get('pattern') or {}).items():
         branches.add('pattern_%s_%s_%s' % (k, arr, pat))
 
@@ -566,6 +575,8 @@ def check_sed(c, d, branches, with_model=True):
         err = _convert(err_stored, eun, c['unit'], nu_in, c['distance_kpc'])
         fn, fn_read = _paths(c, d, 'sed_%d.fits' % im)
         route = c.get('route') or {}
+        if route.get('wav_unit'):
+            s.wav = (wav * u.micron).to(getattr(u, route['wav_unit']))     # same wavelengths, held in another unit
         uw = getattr(u, route.get('unit_wav') or 'micron')
         uf = getattr(u, route.get('unit_freq') or 'Hz')
         try:
@@ -708,6 +719,8 @@ def check_cube(c, d, branches, with_model=True):
         branches.add('route_ctor_%s_cube' % ('all_keywords' if how == 'all' else how))
     else:
         cube = pk.make_cube(c['names'], wav, val, unc, apertures_au=c['aps'], distance_kpc=c['distance_kpc'], unit=unit)
+    if route.get('wav_unit') and route.get('ctor') != 'nu':
+        cube.wav = (wav * u.micron).to(getattr(u, route['wav_unit']))      # same wavelengths, held in another unit
     if c['has_unc'] and eunit != unit:
         cube.unc = unc * eunit                   # uncertainties held in another permitted unit (BUNIT is per HDU)
         branches.add('flux_error_units_differ')
@@ -882,8 +895,9 @@ def check_conv(c, d, branches, with_model=True):
         eunit = _unit(_eunit_name(c))
         if eunit != unit:
             branches.add('flux_error_units_differ')
+        cw = (c['wav'][k] * u.micron).to(getattr(u, route.get('wav_unit') or 'micron'))
         if route.get('ctor'):
-            cf = ConvolvedFluxes(wavelength=c['wav'][k] * u.micron if has_wav else None, model_names=np.array(c['names']),
+            cf = ConvolvedFluxes(wavelength=cw if has_wav else None, model_names=np.array(c['names']),
                                  apertures=np.array(c['aps'], float) * u.au if c['has_ap'] else None,
                                  flux=val[:, :, k] * unit, error=unc[:, :, k] * eunit)
         else:
@@ -892,7 +906,7 @@ def check_conv(c, d, branches, with_model=True):
             if c['has_ap']:
                 cf.apertures = np.array(c['aps'], float) * u.au
             if has_wav:
-                cf.central_wavelength = c['wav'][k] * u.micron
+                cf.central_wavelength = cw
             cf.flux = val[:, :, k] * unit
             cf.error = unc[:, :, k] * eunit
         fn, fn_read = _paths(c, d, 'conv_%d.fits' % k)
